@@ -265,68 +265,103 @@ def rule_prefilter_arms(ctx):
 
 
 def rule_trim_guards(ctx):
+    """exact / prefix / postfix: the window handed to exact_match_impl, per decision path, as a polynomial in
+    h = len(haystack), n = len(needle), LWS/TWS = leading/trailing whitespace of the haystack; whitespace is
+    skipped exactly when the needle does not itself begin/end with whitespace.  Parameters are taken by position
+    (haystack, needle); helpers new to the inventory are inlined; `?`, let-else, if-expressions, early returns and
+    named locals all reduce to the same per-path values."""
+    from cfg import decision_paths
     facts = ctx.facts
     spec = {
         "exact": (True, True), "prefix": (True, False), "postfix": (False, True),
     }
+    HAY, NEE = 2, 3
+
+    def arg_of(x):
+        x = peel(x)
+        while x[0] in ("ref", "deref", "cast"):
+            x = peel(x[2] if x[0] == "cast" else x[1])
+        return x[1] if x[0] == "arg" else None
+
+    def atomize(e):
+        e = strip_casts(e)
+        if e[0] == "call" and str(e[1]).endswith("Utf32Str::<'a>::len"):
+            a_ = arg_of(e[2][0])
+            return "h" if a_ == HAY else ("n" if a_ == NEE else None)
+        if e[0] == "call" and str(e[1]).endswith("::leading_white_space"):
+            return "LWS" if arg_of(e[2][0]) == HAY else "?lws(other)"
+        if e[0] == "call" and str(e[1]).endswith("::trailing_white_space"):
+            return "TWS" if arg_of(e[2][0]) == HAY else "?tws(other)"
+        return None
+
+    def ws_cond(d):
+        """is_whitespace(needle.first()/last()) -> 'first' / 'last'"""
+        d = strip_casts(d)
+        if d[0] == "call" and str(d[1]).endswith("is_whitespace"):
+            inner = peel(d[2][0])
+            if inner[0] == "call" and arg_of(inner[2][0]) == NEE:
+                if str(inner[1]).endswith("::first"):
+                    return "first"
+                if str(inner[1]).endswith("::last"):
+                    return "last"
+        return None
+
     for kind, (lead, trail) in spec.items():
         for suffix in ("_match", "_indices"):
             name = "Matcher::%s%s" % (kind, suffix)
             fn = get_fn(facts, M, name)
-            lw = [(bi, t) for bi, t in fn.calls(lambda t: callee(t).endswith("::leading_white_space"))]
-            tw = [(bi, t) for bi, t in fn.calls(lambda t: callee(t).endswith("::trailing_white_space"))]
             key = name + "|trim"
             problems = []
-            if bool(lw) != lead:
-                problems.append("leading trim %s" % ("missing" if lead else "present but %s matching must not skip leading whitespace" % kind))
-            if bool(tw) != trail:
-                problems.append("trailing trim %s" % ("missing" if trail else "present but %s matching must not skip trailing whitespace" % kind))
-            for calls, which, endfn in ((lw, "leading", "::first"), (tw, "trailing", "::last")):
-                for bi, t in calls:
-                    if "haystack" not in show(fn.expr_of_operand(t["args"][0])):
-                        problems.append("%s whitespace counted on %s" % (which, show(fn.expr_of_operand(t["args"][0]))))
-                    gs = guards_of(fn, bi)
-                    okg = False
-                    for g in gs:
-                        e = g[3]
-                        if e[0] == "call" and str(e[1]).endswith("is_whitespace") and g[2] == [0]:
-                            inner = e[2][0]
-                            if inner[0] == "call" and str(inner[1]).endswith(endfn) and "needle" in show(inner[2][0]):
-                                okg = True
-                    if not okg:
-                        problems.append("%s trim is not guarded by `!needle%s().is_whitespace()`" % (which, endfn.replace("::", ".")))
             # empty needle exit dominates first()/last()
             for bi, t in fn.calls(lambda t: callee(t).endswith("Utf32Str::<'a>::first") or callee(t).endswith("Utf32Str::<'a>::last")):
                 gs = guards_of(fn, bi)
                 if not any(g[3][0] == "call" and str(g[3][1]).endswith("is_empty") and g[2] == [0] for g in gs):
                     problems.append("needle.first()/last() reachable with an empty needle (panics)")
-            # bounds handed to exact_match_impl
-            em = [(bi, t) for bi, t in fn.calls(lambda t: callee(t).endswith("::exact_match_impl"))]
-            if len(em) != 1:
-                problems.append("expected one exact_match_impl call")
-            else:
-                bi, t = em[0]
-
-                def atomize(e):
-                    e = strip_casts(e)
-                    if e[0] == "call" and str(e[1]).endswith("Utf32Str::<'a>::len"):
-                        s_ = show(e[2][0])
-                        return "h" if "haystack" in s_ else ("n" if "needle" in s_ else None)
-                    if e[0] == "local" and e[2] in ("leading_space",):
-                        return "lead"
-                    if e[0] == "local" and e[2] in ("trailing_space", "trailing_spaces"):
-                        return "trail"
-                    return None
-                s_ = poly_of(fn.expr_of_operand(t["args"][3]), atomize)
-                e_ = poly_of(fn.expr_of_operand(t["args"][4]), atomize)
-                h, n_, L, T = Poly.atom("h"), Poly.atom("n"), Poly.atom("lead"), Poly.atom("trail")
+            paths = [(c_, r_, k_) for c_, r_, k_ in decision_paths(fn, with_calls=True) if any(str(x[0]).endswith("::exact_match_impl") for x in k_)]
+            if not paths:
+                problems.append("no path reaches exact_match_impl")
+            h, n_ = Poly.atom("h"), Poly.atom("n")
+            for conds, res, calls in paths:
+                impl = [x for x in calls if str(x[0]).endswith("::exact_match_impl")]
+                if len(impl) != 1:
+                    problems.append("expected one exact_match_impl call per path")
+                    break
+                cargs = impl[0][2]
+                ws = {}
+                for d, chosen, allv in conds:
+                    w = ws_cond(d)
+                    neg = False
+                    dd = strip_casts(d)
+                    while w is None and dd[0] == "un" and dd[1] == "Not":
+                        dd = strip_casts(dd[2])
+                        neg = not neg
+                        w = ws_cond(dd)
+                    if w is not None:
+                        truth = (chosen != 0) if chosen is not None else True
+                        ws[w] = truth != neg
+                s_ = poly_of(cargs[3], atomize)
+                e_ = poly_of(cargs[4], atomize)
+                # the skipped amounts on this path
+                if lead and "first" not in ws:
+                    problems.append("leading whitespace handling does not depend on `needle.first().is_whitespace()` on some path")
+                    break
+                if trail and "last" not in ws:
+                    problems.append("trailing whitespace handling does not depend on `needle.last().is_whitespace()` on some path")
+                    break
+                L = (Poly.const(0) if ws.get("first") else Poly.atom("LWS")) if lead else Poly.const(0)
+                T = (Poly.const(0) if ws.get("last") else Poly.atom("TWS")) if trail else Poly.const(0)
                 want = {"exact": (L, h - T), "prefix": (L, n_ + L), "postfix": (h - n_ - T, h - T)}[kind]
                 if (s_, e_) != want:
-                    problems.append("bounds passed to exact_match_impl are (%s, %s), expected (%s, %s)" % (s_, e_, want[0], want[1]))
+                    problems.append("bounds passed to exact_match_impl are (%s, %s), expected (%s, %s) when the needle %s with whitespace"
+                                    % (s_, e_, want[0], want[1], ", ".join("%s %s" % ("starts" if k_ == "first" else "ends", "" if v_ else "not") for k_, v_ in sorted(ws.items())) or "—"))
+                    break
+                if arg_of(cargs[1]) != HAY or arg_of(cargs[2]) != NEE:
+                    problems.append("exact_match_impl is not called with (haystack, needle)")
+                    break
             if problems:
                 ctx.violation(key, site(fn, 0), "; ".join(problems))
             else:
-                ctx.ok(site(fn, 0), "%s%s: trims and bounds as documented" % (kind, suffix))
+                ctx.ok(site(fn, 0), "%s%s: trims and bounds as documented on all %d path(s) to exact_match_impl" % (kind, suffix, len(paths)))
     # exact_match_impl rejects unless len(needle) == end - start
     em = get_fn(facts, M, "Matcher::exact_match_impl")
     okl = False
